@@ -1,0 +1,195 @@
+//go:build verif
+
+// Verification hook (never built without -tags verif) used by /verif engine `net`
+// (properties C02, C03, C04, C10, C22): builds the border routers of one AS as real dataPlane
+// values connected by in-memory links, and exposes the fast path (processPkt) and the slow path
+// (slowPathPacketProcessor.processPacket) on raw packets. Self-contained: all identifiers are
+// prefixed VerifNet.
+
+package router
+
+import (
+	"fmt"
+
+	"github.com/scionproto/scion/pkg/addr"
+	"github.com/scionproto/scion/private/topology"
+	"github.com/scionproto/scion/router/bfd"
+)
+
+// VerifNetLink is an in-memory Link. Up can be flipped by the harness at any time.
+type VerifNetLink struct {
+	ID      uint16    // interface ID (external links only, else 0)
+	Kind    LinkScope // Internal, Sibling, External
+	Up      bool
+	Sibling int // index of the sibling router this link leads to (sibling links only)
+
+	// Filled by Resolve (internal link only): the local destination of the last delivered packet.
+	ResolvedHost addr.Host
+	ResolvedPort uint16
+}
+
+func (l *VerifNetLink) IsUp() bool                 { return l.Up }
+func (l *VerifNetLink) IfID() uint16               { return l.ID }
+func (l *VerifNetLink) Metrics() *InterfaceMetrics { return nil }
+func (l *VerifNetLink) Scope() LinkScope           { return l.Kind }
+func (l *VerifNetLink) BFDSession() *bfd.Session   { return nil }
+func (l *VerifNetLink) Send(p *Packet) bool        { return true }
+func (l *VerifNetLink) SendBlocking(p *Packet)     {}
+func (l *VerifNetLink) Resolve(p *Packet, host addr.Host, port uint16) error {
+	l.ResolvedHost, l.ResolvedPort = host, port
+	return nil
+}
+
+var _ Link = (*VerifNetLink)(nil)
+
+// VerifNetIface describes one inter-AS interface of the AS.
+type VerifNetIface struct {
+	ID       uint16
+	LinkTo   topology.LinkType
+	Neighbor addr.IA
+	Owner    int // index of the border router that owns the interface
+}
+
+// VerifNetRouter is one border router of an AS.
+type VerifNetRouter struct {
+	Index    int
+	IA       addr.IA
+	Internal *VerifNetLink
+	External map[uint16]*VerifNetLink // owned external interfaces
+	Siblings map[int]*VerifNetLink    // by sibling router index
+
+	dp   *dataPlane
+	fast *scionPacketProcessor
+	slow *slowPathPacketProcessor
+	buf  [bufSize]byte
+	pkt  Packet
+}
+
+// VerifNetNewAS builds n border routers for an AS. Every router knows every interface of the AS:
+// its own as external links, the others through one sibling link per sibling router (shared by
+// all interfaces of that sibling, as AddNextHop does).
+func VerifNetNewAS(ia addr.IA, key []byte, ifaces []VerifNetIface, n int,
+	host func(router int) addr.Host) ([]*VerifNetRouter, error) {
+
+	routers := make([]*VerifNetRouter, n)
+	for i := range routers {
+		d := &dataPlane{
+			underlays: map[string]UnderlayProvider{},
+			Metrics:   metrics,
+			RunConfig: RunConfig{NumProcessors: 1, NumSlowPathProcessors: 1, BatchSize: 8},
+		}
+		if err := d.SetIA(ia); err != nil {
+			return nil, err
+		}
+		if err := d.SetKey(key); err != nil {
+			return nil, err
+		}
+		d.dispatchedPortStart, d.dispatchedPortEnd = 1024, 65535
+		d.localHost = host(i)
+		r := &VerifNetRouter{
+			Index:    i,
+			IA:       ia,
+			Internal: &VerifNetLink{Kind: Internal, Up: true},
+			External: map[uint16]*VerifNetLink{},
+			Siblings: map[int]*VerifNetLink{},
+			dp:       d,
+		}
+		d.interfaces[0] = r.Internal
+		d.numInterfaces++
+		for _, f := range ifaces {
+			if f.ID == 0 || f.Owner < 0 || f.Owner >= n {
+				return nil, fmt.Errorf("bad interface %+v", f)
+			}
+			if d.interfaces[f.ID] != nil {
+				return nil, fmt.Errorf("duplicate interface %d", f.ID)
+			}
+			if err := d.AddNeighborIA(f.ID, f.Neighbor); err != nil {
+				return nil, err
+			}
+			d.linkTypes[f.ID] = f.LinkTo
+			if f.Owner == i {
+				l := &VerifNetLink{ID: f.ID, Kind: External, Up: true}
+				r.External[f.ID] = l
+				d.interfaces[f.ID] = l
+			} else {
+				l := r.Siblings[f.Owner]
+				if l == nil {
+					l = &VerifNetLink{Kind: Sibling, Up: true, Sibling: f.Owner}
+					r.Siblings[f.Owner] = l
+				}
+				d.interfaces[f.ID] = l
+			}
+			d.numInterfaces++
+		}
+		r.fast = newPacketProcessor(d)
+		r.slow = newSlowPathProcessor(d)
+		routers[i] = r
+	}
+	return routers, nil
+}
+
+// VerifNetRemoveIface makes the router forget an interface (for "unknown egress" experiments).
+func (r *VerifNetRouter) VerifNetRemoveIface(id uint16) (restore func()) {
+	old, lt := r.dp.interfaces[id], r.dp.linkTypes[id]
+	r.dp.interfaces[id] = nil
+	return func() { r.dp.interfaces[id], r.dp.linkTypes[id] = old, lt }
+}
+
+// VerifNetResult is what the fast path decided for one packet.
+type VerifNetResult struct {
+	Disp     int    // 0 discard, 1 forward, 2 slow path, 3 done
+	Egress   uint16 // pkt.egress
+	OutScope LinkScope
+	OutSib   int    // sibling router index when OutScope == Sibling
+	Raw      []byte // copy of the packet after processing
+	SlowType int    // slow-path request: SCMP type (>= 0), -1 ingress alert, -2 egress alert
+	SlowCode int
+	SlowPtr  int
+	Panic    string
+}
+
+// Process runs the fast path on a copy of raw, as received over link in (one of r.Internal,
+// r.External[..], r.Siblings[..]). The router keeps the packet so that SlowPath can follow.
+func (r *VerifNetRouter) Process(raw []byte, in *VerifNetLink) (res VerifNetResult) {
+	defer func() {
+		if e := recover(); e != nil {
+			res = VerifNetResult{Disp: 0, Panic: fmt.Sprint(e)}
+		}
+	}()
+	r.pkt = Packet{buffer: &r.buf}
+	r.pkt.RawPacket = r.buf[minHeadroom : minHeadroom+len(raw)]
+	copy(r.pkt.RawPacket, raw)
+	r.pkt.Link = in
+	disp := r.fast.processPkt(&r.pkt)
+	res.Disp = int(disp)
+	res.Egress = r.pkt.egress
+	res.Raw = append([]byte(nil), r.pkt.RawPacket...)
+	switch disp {
+	case pForward:
+		l, _ := r.dp.interfaces[r.pkt.egress].(*VerifNetLink)
+		if l == nil {
+			res.OutScope = -1
+		} else {
+			res.OutScope, res.OutSib = l.Kind, l.Sibling
+		}
+	case pSlowPath:
+		res.SlowType = int(r.pkt.slowPathRequest.spType)
+		res.SlowCode = int(r.pkt.slowPathRequest.code)
+		res.SlowPtr = int(r.pkt.slowPathRequest.pointer)
+	}
+	return res
+}
+
+// SlowPath runs the slow path on the packet last given to Process (which must have answered
+// Disp == 2). The reply leaves through the link the packet came in on.
+func (r *VerifNetRouter) SlowPath() (reply []byte, err error) {
+	defer func() {
+		if e := recover(); e != nil {
+			reply, err = nil, fmt.Errorf("PANIC %v", e)
+		}
+	}()
+	if err := r.slow.processPacket(&r.pkt); err != nil {
+		return nil, err
+	}
+	return append([]byte(nil), r.pkt.RawPacket...), nil
+}
